@@ -117,6 +117,25 @@ func (e *Engine) intercept(fr *frame, fn *ssa.Function, args []Value) (Value, bo
 	}
 	switch name {
 	// ---------------- sync ----------------
+	case "(*sync.Once).Do":
+		c := args[0].(PtrVal).C
+		if c == nil {
+			e.progPanicAt(fr, "nil pointer dereference (Once.Do)")
+		}
+		if e.ev != nil && e.ev.active {
+			panic(engineErr("sync.Once is not modelled in concurrency harnesses"))
+		}
+		e.stub("sync.Once (sequential: runs the function on the first call)")
+		if e.onceDone == nil {
+			e.onceDone = map[*Cell]bool{}
+		}
+		if !e.onceDone[c] {
+			e.onceDone[c] = true
+			if f, _ := args[1].(*FuncVal); f != nil {
+				e.callFunc(fr, f, nil)
+			}
+		}
+		return nil, true
 	case "(*sync.Mutex).Lock", "(*sync.RWMutex).Lock":
 		c := args[0].(PtrVal).C
 		if c == nil {
